@@ -31,13 +31,14 @@ CLOSE = "rusl::unistd::close::close"
 
 
 def run(ck, progs, tier):
-    from .c17 import check_slot_capacity, check_cqe_index, check_flush_publishes
+    from .c17 import check_slot_capacity, check_cqe_index, check_flush_publishes, check_completion_head
     for cfgname, prog in progs.items():
         ck.set_config(prog)
         run_one(ck, prog)
         # C18.6 an entry the kernel has not consumed yet is never handed out again (its operation would be lost: no completion)
         check_slot_capacity(ck, prog, "C18.6")
         check_cqe_index(ck, prog, "C18.6")
+        check_completion_head(ck, prog, "C18.6")
         check_flush_publishes(ck, prog, "C18.6")
 
 
